@@ -13,7 +13,8 @@ RULE = ("exhaustive deck: every dtype x every value of the per-dtype pool (nativ
         "values=, append, extend, insert, item assignment, remove, strict on/off), every dtype->dtype change, "
         "every dtype x dtype merge; then random value-editing histories of length 1..6 and the structural "
         "histories of C03; non-trivial = history with more than 2 operations; distinct = hash of the op list")
-ASSUMPTIONS = ["dtype inputs are canonical names, DType members and the aliases/invalid names listed in "
+ASSUMPTIONS = ["the repository's own test-suite runs once more under the value predicates (evaluated on everything a test created, after each test)",
+               "dtype inputs are canonical names, DType members and the aliases/invalid names listed in "
                "vlib/histrun.DTYPE_INPUTS",
                "text form of a value = str(Property.value_str(i)); back = odml.dtypes.get(text, dtype)"]
 REQUIRED_MONITORS = ["value-invariant"]
